@@ -69,12 +69,37 @@ def run_variant(v, tier='quick'):
         shutil.rmtree(d, ignore_errors=True)
 
 
+def run_global_twin(v):
+    """Global twin: rewrite the whole package (formatting normalised / locals renamed) and require silence."""
+    vid, pid, kind, mode = v[0], v[1], v[2], v[3]
+    from .gtwins import rewrite
+    d = scratch()
+    try:
+        try:
+            rewrite(d, mode)
+        except SyntaxError as exc:
+            return (vid, 'broken', f'rewrite does not compile: {exc}')
+        env = dict(os.environ, DOSA_REPO=d, DOSA_NO_EVIDENCE='1', DOSA_OUT=os.path.join(d, 'out'), PYTHONDONTWRITEBYTECODE='1', DOSA_NO_SELFTEST='1')
+        py = '/venv/bin/python' if os.path.exists('/venv/bin/python') else sys.executable
+        r = subprocess.run([py, '-m', 'dosa.main', pid, '--tier', 'quick'], capture_output=True, text=True, env=env, cwd=VERIF)
+        out = r.stdout + r.stderr
+        if r.returncode == 0:
+            return (vid, 'silent', '')
+        rules = [l.split(' rule ')[1].split(' ')[0] for l in out.splitlines() if l.startswith('--- ') and ' rule ' in l]
+        return (vid, 'NOISY', ','.join(sorted(set(rules))) or [l for l in out.splitlines() if l.startswith('ANALYSIS-ERROR')][:1])
+    finally:
+        shutil.rmtree(d, ignore_errors=True)
+
+
 def run_all(pid=None, jobs=16, ids=None):
     from .variants import VARIANTS
     vs = [v for v in VARIANTS if (pid is None or v[1] == pid) and (ids is None or v[0] in ids)]
+    pids = sorted({v[1] for v in VARIANTS}) if pid is None else [pid]
+    gts = [(f'{p.lower()}-gtwin-{mode}', p, 'twin', mode, None, None, None) for p in pids for mode in ('unparse', 'rename')
+           if ids is None or f'{p.lower()}-gtwin-{mode}' in ids]
     with cf.ThreadPoolExecutor(max_workers=jobs) as ex:
-        res = list(ex.map(run_variant, vs))
-    return vs, res
+        res = list(ex.map(run_variant, vs)) + list(ex.map(run_global_twin, gts))
+    return vs + gts, res
 
 
 def summarise(vs, res):
